@@ -63,4 +63,6 @@ M5 replaceSequenceLabel: target.IsTool(label) -> false       exit 1: 20 disagree
                                                              relative path "b" instead of <root>/plz-out/bin/b), `accepted-tool-at-test-time`
 H1 harmless: rename outputBuilder -> sb, reorder the atoms of the not-executable guard      exit 0 (facts regenerated identically:
                                                              the guard atoms are sorted, locals are not facts)
+Fix phase: with 45b862e / ddddbe1 / 2c9bf67 in /repo, reverting 45b862e on a scratch copy gives exit 1,
+`VIOLATION … violation-single-output-sequence-accepts-zero-outputs.json`, 21 disagreements, guard fact and skeleton flipped.
 """
